@@ -402,6 +402,18 @@ def classify(fn, t, set_path, mir):
             for st in b["stmts"]:
                 if st["k"] == "assign" and st["rv"]["k"] == "agg" and st["rv"].get("adt") == set_path:
                     e = strip_transparent(ex.operand(st["rv"]["ops"][0]))
+                    # the local that becomes the vector: any mutable use between its creation and the
+                    # aggregate makes this a bulk writer, whatever it was created from
+                    op0 = st["rv"]["ops"][0]
+                    vl = None
+                    if op0["k"] in ("copy", "move") and not op0["pl"]["p"]:
+                        vl = op0["pl"]["l"]
+                        ds = fn.defs(vl)
+                        if len(ds) == 1 and ds[0][0] == "assign" and ds[0][3]["rv"]["k"] == "use" and ds[0][3]["rv"]["op"]["k"] in ("copy", "move") and not ds[0][3]["rv"]["op"]["pl"]["p"]:
+                            vl = ds[0][3]["rv"]["op"]["pl"]["l"]
+                    mutated = vl is not None and any(ev["mutable"] for ev in vec_events(fn, set_path, vl))
+                    if mutated:
+                        return "bulk"
                     if e.k == "call" and e.a[0] in ("std::vec::Vec::<T>::new", "std::vec::Vec::<T>::with_capacity") :
                         return "empty-constructor"
                     if e.k == "agg" and e.a[0] == "array" and not e.a[2]:
